@@ -4,22 +4,173 @@ import StorageModel.C03.Model
   parent / child layering (see /verif/harness/c06.go for the wiring):
 
     store A "things":  name (unique), alias (nullable unique), roles (set index),
-                       owner (nullable fk index → B.things), groups (link collection ↔ B.members)
-    store A1:          plain child of A (`ext1`), code (unique, non-nullable)
-    store B "owners":  label (nullable unique), things (back-references), members (links)
+                       owner (nullable fk index → B.things), dep (nullable fk constraint → B,
+                       cascade delete), groups (link collection ↔ B.members),
+                       rcB (ref-counted link collection ↔ B.rcA)
+    store A1:          plain child of A (`ext1`), code (unique, non-nullable),
+                       pals (link collection owned by the CHILD store ↔ B.palsOf)
+    store B "owners":  label (nullable unique), things (back-references), members / palsOf / rcA
 
   Follows boltz/store_crud.go (Create / Update / DeleteById / processDeleteConstraints /
-  cleanupLinks), boltz/indexes.go (uniqueIndex, setIndex, fkIndex, fkDeleteConstraint) and
-  boltz/link_collection.go.  Unique / set index steps are the ones of the C03 model.
+  cleanupLinks), boltz/indexes.go (uniqueIndex, setIndex, fkIndex, fkDeleteConstraint,
+  fkConstraint, fkDeleteCascadeConstraint), boltz/link_collection.go and
+  boltz/link_collection_rc.go.  Unique / set index steps are the ones of the C03 model.
 
-  Every bucket is an explicit map.  Link buckets and back-reference buckets are kept in maps of
-  their own (`grp`, `mem`, `thg`) keyed by the owning entity's id; `lookup = none` means the
-  bucket does not exist.
+  Every bucket is an explicit map.  Link, ref-count and back-reference buckets live in maps of
+  their own keyed by the owning entity's id; `lookup = none` means the bucket does not exist.
 -/
 namespace StorageModel.C06
 open StorageModel
 open StorageModel.C03 (Map Id Err setInsert setErase setOf uniqueAfter uniqueBeforeDelete setAfter setBeforeDelete
   Line typed nilField bU bIndexes bThings bName bAlias bRoles)
+
+/-! ### a plain link collection: two families of list buckets -/
+
+structure LinkPair where
+  /-- owner id (declaring side) → keys of its link bucket -/
+  fwd : Map Id (List Id)
+  /-- other side's id → keys of its link bucket -/
+  bwd : Map Id (List Id)
+  deriving Repr
+
+namespace LinkPair
+
+def empty : LinkPair := ⟨[], []⟩
+
+/-- `unlink`: local `DeleteListEntry`, then `otherField.RemoveLink` (silently nothing when the
+    other entity or its bucket is missing) -/
+def unlink (p : LinkPair) (bEx : Id → Bool) (a b : Id) : LinkPair :=
+  let p1 := { p with fwd := p.fwd.insert a (setErase b ((p.fwd.lookup a).getD [])) }
+  match bEx b, p1.bwd.lookup b with
+  | true, some ms => { p1 with bwd := p1.bwd.insert b (setErase a ms) }
+  | _, _ => p1
+
+/-- `link`: local `SetListEntry`, then `otherField.AddLink` (not-found when the other entity is missing) -/
+def link (p : LinkPair) (bEx : Id → Bool) (a b : Id) : Except Err LinkPair :=
+  let p1 := { p with fwd := p.fwd.insert a (setInsert b ((p.fwd.lookup a).getD [])) }
+  if bEx b then .ok { p1 with bwd := p1.bwd.insert b (setInsert a ((p1.bwd.lookup b).getD [])) }
+  else .error .notFound
+
+def linkAll (bEx : Id → Bool) (a : Id) : List Id → LinkPair → Except Err LinkPair
+  | [], p => .ok p
+  | b :: rest, p => match p.link bEx a b with
+    | .ok p' => linkAll bEx a rest p'
+    | .error e => .error e
+
+/-- `SetLinks` by its effect: entries not requested are removed, requested ones not yet present
+    are added (removals first); the sorted-merge loop itself is C05's subject -/
+def setLinks (p : LinkPair) (bEx : Id → Bool) (a : Id) (req : List Id) : Except Err LinkPair :=
+  let cur := (p.fwd.lookup a).getD []
+  let want := setOf req
+  let toRemove := cur.filter (fun k => !want.contains k)
+  let toAdd := want.filter (fun k => !cur.contains k)
+  -- getFieldBucket creates the bucket
+  let p0 := { p with fwd := p.fwd.insert a cur }
+  linkAll bEx a toAdd (toRemove.foldl (fun p k => p.unlink bEx a k) p0)
+
+/-- one step of `EntityDeleted` for the owner of a `fwd` bucket -/
+def cleanFwdStep (bEx : Id → Bool) (id : Id) (p : LinkPair) (b : Id) : LinkPair :=
+  match bEx b, p.bwd.lookup b with
+  | true, some ms => { p with bwd := p.bwd.insert b (setErase id ms) }
+  | _, _ => p
+
+/-- `EntityDeleted` on the declaring side: the other side of every link is removed; the local
+    bucket goes with the entity -/
+def cleanFwd (p : LinkPair) (bEx : Id → Bool) (id : Id) : LinkPair :=
+  ((p.fwd.lookup id).getD []).foldl (cleanFwdStep bEx id) p
+
+def cleanBwdStep (aEx : Id → Bool) (id : Id) (p : LinkPair) (a : Id) : LinkPair :=
+  match aEx a, p.fwd.lookup a with
+  | true, some gs => { p with fwd := p.fwd.insert a (setErase id gs) }
+  | _, _ => p
+
+/-- `EntityDeleted` of the collection declared by the other store -/
+def cleanBwd (p : LinkPair) (aEx : Id → Bool) (id : Id) : LinkPair :=
+  ((p.bwd.lookup id).getD []).foldl (cleanBwdStep aEx id) p
+
+end LinkPair
+
+/-! ### a ref-counted link collection: two families of count buckets -/
+
+abbrev Counts := Map Id Nat
+
+/-- `TypedBucket.IncrementLinkCount` -/
+def bInc (c : Counts) (k : Id) : Counts × Int :=
+  let n := match c.lookup k with
+    | some v => v + 1
+    | none => 1
+  (c.insert k n, n)
+
+/-- `TypedBucket.DecrementLinkCount`: -1 when there is no entry; the entry goes when the count
+    reaches zero -/
+def bDec (c : Counts) (k : Id) : Counts × Int :=
+  match c.lookup k with
+  | none => (c, -1)
+  | some v => if v - 1 > 0 then (c.insert k (v - 1), (v : Int) - 1) else (c.erase k, (v : Int) - 1)
+
+/-- `TypedBucket.SetLinkCount` (counts ≥ 0) -/
+def bSet (c : Counts) (k : Id) (n : Nat) : Counts :=
+  if n = 0 then (if (c.lookup k).isSome then c.erase k else c) else c.insert k n
+
+structure RcPair where
+  fwd : Map Id Counts
+  bwd : Map Id Counts
+  deriving Repr
+
+namespace RcPair
+
+def empty : RcPair := ⟨[], []⟩
+
+/-- `IncrementLinkCount(a, b)` on the declaring side's collection -/
+def inc (r : RcPair) (aEx bEx : Id → Bool) (a b : Id) : Except Err RcPair :=
+  if !aEx a then .error .other                                    -- "… not found with id …"
+  else
+    let x := bInc ((r.fwd.lookup a).getD []) b
+    let r1 := { r with fwd := r.fwd.insert a x.1 }
+    if !bEx b then .error .notFound
+    else
+      let y := bInc ((r1.bwd.lookup b).getD []) a
+      if x.2 ≠ y.2 then .error .other                             -- "unexpected mismatch …"
+      else .ok { r1 with bwd := r1.bwd.insert b y.1 }
+
+def dec (r : RcPair) (aEx bEx : Id → Bool) (a b : Id) : Except Err RcPair :=
+  if !aEx a then .error .other
+  else
+    let x := bDec ((r.fwd.lookup a).getD []) b
+    let r1 := { r with fwd := r.fwd.insert a x.1 }
+    match bEx b, r1.bwd.lookup b with
+    | true, some cb =>
+      let y := bDec cb a
+      if x.2 ≠ y.2 then .error .other else .ok { r1 with bwd := r1.bwd.insert b y.1 }
+    | _, _ => if x.2 ≠ -1 then .error .other else .ok r1
+
+def set (r : RcPair) (aEx bEx : Id → Bool) (a b : Id) (n : Nat) : Except Err RcPair :=
+  if !aEx a then .error .other
+  else
+    let r1 := { r with fwd := r.fwd.insert a (bSet ((r.fwd.lookup a).getD []) b n) }
+    if !bEx b then .error .notFound
+    else .ok { r1 with bwd := r1.bwd.insert b (bSet ((r1.bwd.lookup b).getD []) a n) }
+
+/-- `RefCountedLinkedSetSymbol.unlink`, for every key of the deleted entity's bucket -/
+def cleanFwdStep (bEx : Id → Bool) (id : Id) (r : RcPair) (b : Id) : RcPair :=
+  match bEx b, r.bwd.lookup b with
+  | true, some cb => { r with bwd := r.bwd.insert b (cb.erase id) }
+  | _, _ => r
+
+def cleanFwd (r : RcPair) (bEx : Id → Bool) (id : Id) : RcPair :=
+  (Map.keys ((r.fwd.lookup id).getD [])).foldl (cleanFwdStep bEx id) r
+
+def cleanBwdStep (aEx : Id → Bool) (id : Id) (r : RcPair) (a : Id) : RcPair :=
+  match aEx a, r.fwd.lookup a with
+  | true, some ca => { r with fwd := r.fwd.insert a (ca.erase id) }
+  | _, _ => r
+
+def cleanBwd (r : RcPair) (aEx : Id → Bool) (id : Id) : RcPair :=
+  (Map.keys ((r.bwd.lookup id).getD [])).foldl (cleanBwdStep aEx id) r
+
+end RcPair
+
+/-! ### entities and state -/
 
 /-- an A entity's own fields (`u/things/<id>`), plus the child-store data -/
 structure EntA where
@@ -27,6 +178,7 @@ structure EntA where
   alias : Option Bytes
   roles : List Bytes
   owner : Option Bytes
+  dep : Option Bytes
   /-- `ext1/code` (`none`: the entity has no child-store data) -/
   code : Option Bytes
   deriving DecidableEq, Repr
@@ -40,10 +192,12 @@ structure State where
   hasB : Bool
   a : Map Id EntA
   b : Map Id EntB
-  /-- A id → keys of its `groups` bucket -/
-  grp : Map Id (List Id)
-  /-- B id → keys of its `members` bucket -/
-  mem : Map Id (List Id)
+  /-- A.groups ↔ B.members -/
+  g : LinkPair
+  /-- A1.pals (inside `ext1`) ↔ B.palsOf -/
+  p : LinkPair
+  /-- A.rcB ↔ B.rcA -/
+  rc : RcPair
   /-- B id → keys of its `things` bucket (back-references of A.owner) -/
   thg : Map Id (List Id)
   uName : Map Bytes Id
@@ -53,13 +207,19 @@ structure State where
   sRoles : Map Bytes (List Id)
   deriving Repr
 
-def State.empty : State := ⟨false, false, [], [], [], [], [], [], [], [], [], []⟩
+def State.empty : State := ⟨false, false, [], [], .empty, .empty, .empty, [], [], [], [], [], []⟩
+
+/-- the entity exists in store A / B / has child-store data -/
+def State.aEx (s : State) (j : Id) : Bool := (s.a.lookup j).isSome
+def State.bEx (s : State) (j : Id) : Bool := (s.b.lookup j).isSome
+def State.cEx (s : State) (j : Id) : Bool := ((s.a.lookup j).bind (·.code)).isSome
 
 structure ValsA where
   name : Bytes
   alias : Option Bytes
   roles : List Bytes
   owner : Option Bytes
+  dep : Option Bytes
   groups : List Id
   deriving Repr
 
@@ -68,6 +228,7 @@ structure ChkA where
   alias : Bool
   roles : Bool
   owner : Bool
+  dep : Bool
   groups : Bool
   deriving Repr
 
@@ -76,12 +237,15 @@ inductive Op
   | updateA (id : Id) (v : ValsA) (chk : Option ChkA)
   /-- `A.DeleteById`, or `A1.DeleteById` which delegates to the parent -/
   | deleteA (id : Id)
-  /-- `A1.Create`: parent fields through the parent context, then the child field -/
-  | createA1 (id : Id) (v : ValsA) (code : Bytes)
+  /-- `A1.Create`: parent fields through the parent context, then the child's field and links -/
+  | createA1 (id : Id) (v : ValsA) (code : Bytes) (pals : List Id)
   | createB (id : Id) (label : Option Bytes)
   /-- `chk`: none = nil checker, some b = checker selecting `label` iff b -/
   | updateB (id : Id) (label : Option Bytes) (chk : Option Bool)
   | deleteB (id : Id)
+  | rcInc (a b : Id)
+  | rcDec (a b : Id)
+  | rcSet (a b : Id) (n : Nat)
   deriving Repr
 
 def proceed (chk : Option ChkA) (f : ChkA → Bool) : Bool :=
@@ -95,41 +259,8 @@ def persistFields (old : EntA) (v : ValsA) (chk : Option ChkA) : EntA :=
     name := if proceed chk (·.name) then v.name else old.name
     alias := if proceed chk (·.alias) then v.alias else old.alias
     roles := if proceed chk (·.roles) then setOf v.roles else old.roles
-    owner := if proceed chk (·.owner) then v.owner else old.owner }
-
-/-! ### link collection A.groups ↔ B.members -/
-
-/-- `unlink`: local `DeleteListEntry`, then `otherField.RemoveLink` (silently nothing when the
-    other entity or its bucket is missing) -/
-def unlinkAB (s : State) (a b : Id) : State :=
-  let s1 := { s with grp := s.grp.insert a (setErase b ((s.grp.lookup a).getD [])) }
-  match s1.b.lookup b, s1.mem.lookup b with
-  | some _, some ms => { s1 with mem := s1.mem.insert b (setErase a ms) }
-  | _, _ => s1
-
-/-- `link`: local `SetListEntry`, then `otherField.AddLink` (not-found when the other entity is missing) -/
-def linkAB (s : State) (a b : Id) : Except Err State :=
-  let s1 := { s with grp := s.grp.insert a (setInsert b ((s.grp.lookup a).getD [])) }
-  match s1.b.lookup b with
-  | none => .error .notFound
-  | some _ => .ok { s1 with mem := s1.mem.insert b (setInsert a ((s1.mem.lookup b).getD [])) }
-
-def linkAll (a : Id) : List Id → State → Except Err State
-  | [], s => .ok s
-  | b :: rest, s => match linkAB s a b with
-    | .ok s' => linkAll a rest s'
-    | .error e => .error e
-
-/-- `SetLinks` by its effect: entries not requested are removed, requested ones not yet present
-    are added (removals first); the sorted-merge loop itself is C05's subject -/
-def setLinks (s : State) (a : Id) (req : List Id) : Except Err State :=
-  let cur := (s.grp.lookup a).getD []
-  let want := setOf req
-  let toRemove := cur.filter (fun k => !want.contains k)
-  let toAdd := want.filter (fun k => !cur.contains k)
-  -- getFieldBucket creates the `groups` bucket
-  let s0 := { s with grp := s.grp.insert a cur }
-  linkAll a toAdd (toRemove.foldl (fun s k => unlinkAB s a k) s0)
+    owner := if proceed chk (·.owner) then v.owner else old.owner
+    dep := if proceed chk (·.dep) then v.dep else old.dep }
 
 /-! ### fkIndex A.owner → B.things -/
 
@@ -155,15 +286,22 @@ def fkAfter (isCreate : Bool) (old new : Bytes) (id : Id) (s : State) : Except E
 def fkBeforeDelete (val : Bytes) (id : Id) (s : State) : Except Err State :=
   if val ≠ [] then backrefDel s val id else pure s
 
-/-! ### IndexingContext for A (constraints in registration order: name, alias, roles, owner) -/
+/-- `fkConstraint.ProcessAfterUpdate` (nullable): the target must exist; nothing is written -/
+def depAfter (isCreate : Bool) (old new : Bytes) (s : State) : Except Err State :=
+  if !isCreate && old == new then .ok s
+  else if new ≠ [] then (if s.bEx new then .ok s else .error .notFound)
+  else .ok s
+
+/-! ### IndexingContext for A (constraints in registration order: name, alias, roles, owner, dep) -/
 
 structure Captured where
   name : Bytes
   alias : Bytes
   roles : List Bytes
   owner : Bytes
+  dep : Bytes
 
-def Captured.none : Captured := ⟨[], [], [], []⟩
+def Captured.none : Captured := ⟨[], [], [], [], []⟩
 
 def evName : Option EntA → Bytes
   | some e => e.name
@@ -177,20 +315,24 @@ def evRoles : Option EntA → List Bytes
 def evOwner : Option EntA → Bytes
   | some e => e.owner.getD []
   | none => []
+def evDep : Option EntA → Bytes
+  | some e => e.dep.getD []
+  | none => []
 def evCode : Option EntA → Bytes
   | some e => e.code.getD []
   | none => []
 
 def captureA (s : State) (id : Id) : Captured :=
   let e := s.a.lookup id
-  ⟨evName e, evAlias e, evRoles e, evOwner e⟩
+  ⟨evName e, evAlias e, evRoles e, evOwner e, evDep e⟩
 
 def afterUpdateA (isCreate : Bool) (cap : Captured) (s : State) (id : Id) : Except Err State := do
   let e := s.a.lookup id
   let un ← uniqueAfter isCreate false cap.name (evName e) id s.uName
   let ua ← uniqueAfter isCreate true cap.alias (evAlias e) id s.uAlias
   let sr ← setAfter cap.roles (evRoles e) id s.sRoles
-  fkAfter isCreate cap.owner (evOwner e) id { s with uName := un, uAlias := ua, sRoles := sr }
+  let s1 ← fkAfter isCreate cap.owner (evOwner e) id { s with uName := un, uAlias := ua, sRoles := sr }
+  depAfter isCreate cap.dep (evDep e) s1
 
 def beforeDeleteA (s : State) (id : Id) : Except Err State := do
   let e := s.a.lookup id
@@ -201,13 +343,23 @@ def beforeDeleteA (s : State) (id : Id) : Except Err State := do
 
 /-! ### operations -/
 
+/-- `SetLinkedIds("groups", …)` -/
+def setGroups (s : State) (id : Id) (req : List Id) : Except Err State := do
+  let g ← s.g.setLinks s.bEx id req
+  pure { s with g := g }
+
+/-- `SetLinkedIds("pals", …)` on the child store's collection -/
+def setPals (s : State) (id : Id) (req : List Id) : Except Err State := do
+  let p ← s.p.setLinks s.bEx id req
+  pure { s with p := p }
+
 def createA (s : State) (id : Id) (v : ValsA) : Except Err State :=
   if id = [] then .error .other
   else if (s.a.lookup id).isSome then .error .exists
   else do
-    let e : EntA := ⟨v.name, v.alias, setOf v.roles, v.owner, none⟩
+    let e : EntA := ⟨v.name, v.alias, setOf v.roles, v.owner, v.dep, none⟩
     let s1 := { s with hasA := true, a := s.a.insert id e }
-    let s2 ← setLinks s1 id v.groups                       -- SetLinkedIds; an error stops the create
+    let s2 ← setGroups s1 id v.groups                      -- an error stops the create
     afterUpdateA true Captured.none s2 id
 
 def updateA (s : State) (id : Id) (v : ValsA) (chk : Option ChkA) : Except Err State :=
@@ -217,48 +369,49 @@ def updateA (s : State) (id : Id) (v : ValsA) (chk : Option ChkA) : Except Err S
     | some old => do
       let cap := captureA s id
       let s1 := { s with a := s.a.insert id (persistFields old v chk) }
-      let s2 ← if proceed chk (·.groups) then setLinks s1 id v.groups else pure s1
+      let s2 ← if proceed chk (·.groups) then setGroups s1 id v.groups else pure s1
       afterUpdateA false cap s2 id
 
 /-- `A1.Create`.  Only *child* data is checked for existence.  When the parent entity already
     exists, the parent indexing context's `ProcessBeforeUpdate` runs first (fix 8269ce9), so the
     parent's indexed values are captured and its index entries are replaced; the contexts are
     still create contexts (`IsCreate`), i.e. the equal-value shortcut does not apply. -/
-def createA1 (s : State) (id : Id) (v : ValsA) (code : Bytes) : Except Err State :=
+def createA1 (s : State) (id : Id) (v : ValsA) (code : Bytes) (pals : List Id) : Except Err State :=
   if id = [] then .error .other
-  else if ((s.a.lookup id).bind (·.code)).isSome then .error .exists
+  else if s.cEx id then .error .exists
   else do
     let cap := if (s.a.lookup id).isSome then captureA s id else Captured.none
-    let e : EntA := ⟨v.name, v.alias, setOf v.roles, v.owner, some code⟩
+    let e : EntA := ⟨v.name, v.alias, setOf v.roles, v.owner, v.dep, some code⟩
     let s1 := { s with hasA := true, a := s.a.insert id e }
-    let s2 ← setLinks s1 id v.groups
-    let s3 ← afterUpdateA true cap s2 id                   -- parent context first
+    let s2 ← setGroups s1 id v.groups
+    let s2' ← setPals s2 id pals
+    let s3 ← afterUpdateA true cap s2' id                  -- parent context first
     let uc ← uniqueAfter true false [] code id s3.uCode   -- then the child's own index
     pure { s3 with uCode := uc }
-
-/-- `EntityDeleted` of A.groups: the other side of every link is removed; the local bucket goes
-    with the entity -/
-def cleanupLinksA (s : State) (id : Id) : State :=
-  ((s.grp.lookup id).getD []).foldl (fun s b =>
-    match s.b.lookup b, s.mem.lookup b with
-    | some _, some ms => { s with mem := s.mem.insert b (setErase id ms) }
-    | _, _ => s) s
 
 def deleteA (s : State) (id : Id) : Except Err State :=
   if id = [] then .error .notFound
   else match s.a.lookup id with
     | none => .error .notFound
     | some e => do
-      -- child store first: its indexing context runs the parent's constraints, then its own
+      -- child store first: its indexing context runs the parent's constraints, then its own, then
+      -- the child store's cleanupLinks
       let s1 ← if e.code.isSome then (do
           let t ← beforeDeleteA s id
-          pure { t with uCode := uniqueBeforeDelete (evCode (some e)) t.uCode })
+          pure { t with uCode := uniqueBeforeDelete (evCode (some e)) t.uCode, p := t.p.cleanFwd t.bEx id })
         else pure s
-      -- then the parent's own processDeleteConstraints
+      -- then the parent's own processDeleteConstraints and cleanupLinks
       let s2 ← beforeDeleteA s1 id
-      let s3 := cleanupLinksA s2 id
+      let s3 := { s2 with g := s2.g.cleanFwd s2.bEx id, rc := s2.rc.cleanFwd s2.bEx id }
       -- DeleteEntity: the entity bucket with everything in it
-      pure { s3 with a := s3.a.erase id, grp := s3.grp.erase id }
+      pure { s3 with a := s3.a.erase id, g := { s3.g with fwd := s3.g.fwd.erase id },
+                     p := { s3.p with fwd := s3.p.fwd.erase id }, rc := { s3.rc with fwd := s3.rc.fwd.erase id } }
+
+def deleteAll : List Id → State → Except Err State
+  | [], s => .ok s
+  | id :: rest, s => match deleteA s id with
+    | .ok s' => deleteAll rest s'
+    | .error e => .error e
 
 def createB (s : State) (id : Id) (label : Option Bytes) : Except Err State :=
   if id = [] then .error .other
@@ -276,12 +429,9 @@ def updateB (s : State) (id : Id) (label : Option Bytes) (chk : Option Bool) : E
       let ul ← uniqueAfter false true (old.label.getD []) (new.label.getD []) id s.uLabel
       pure { s with b := s.b.insert id new, uLabel := ul }
 
-/-- `EntityDeleted` of B.members: every member's `groups` entry is removed -/
-def cleanupLinksB (s : State) (id : Id) : State :=
-  ((s.mem.lookup id).getD []).foldl (fun s a =>
-    match s.a.lookup a, s.grp.lookup a with
-    | some _, some gs => { s with grp := s.grp.insert a (setErase id gs) }
-    | _, _ => s) s
+/-- the referrers a cascading delete removes: the A entities whose `dep` is the id, in key order -/
+def dependants (s : State) (id : Id) : List Id :=
+  setOf ((s.a.entries.filter (fun p => decide (p.2.dep.getD [] = id))).map (·.1))
 
 def deleteB (s : State) (id : Id) : Except Err State :=
   if id = [] then .error .notFound
@@ -289,20 +439,31 @@ def deleteB (s : State) (id : Id) : Except Err State :=
     | none => .error .notFound
     | some e =>
       let ul := uniqueBeforeDelete (e.label.getD []) s.uLabel
-      -- fkDeleteConstraint: still referenced → refused
+      -- fkDeleteConstraint: still referenced through `owner` → refused
       if (s.thg.lookup id).getD [] ≠ [] then .error .refExists
-      else
-        let s1 := cleanupLinksB { s with uLabel := ul } id
-        .ok { s1 with b := s1.b.erase id, mem := s1.mem.erase id, thg := s1.thg.erase id }
+      else do
+        -- fkDeleteCascadeConstraint: every dependant is deleted through its own store
+        let s1 ← deleteAll (dependants s id) { s with uLabel := ul }
+        -- cleanupLinks: members, palsOf, rcA
+        let s2 := { s1 with g := s1.g.cleanBwd s1.aEx id, p := s1.p.cleanBwd s1.cEx id, rc := s1.rc.cleanBwd s1.aEx id }
+        pure { s2 with b := s2.b.erase id, thg := s2.thg.erase id, g := { s2.g with bwd := s2.g.bwd.erase id },
+                       p := { s2.p with bwd := s2.p.bwd.erase id }, rc := { s2.rc with bwd := s2.rc.bwd.erase id } }
+
+def rcOp (s : State) (f : RcPair → Except Err RcPair) : Except Err State := do
+  let r ← f s.rc
+  pure { s with rc := r }
 
 def stepRaw (s : State) : Op → Except Err State
   | .createA id v => createA s id v
   | .updateA id v chk => updateA s id v chk
   | .deleteA id => deleteA s id
-  | .createA1 id v code => createA1 s id v code
+  | .createA1 id v code pals => createA1 s id v code pals
   | .createB id l => createB s id l
   | .updateB id l chk => updateB s id l chk
   | .deleteB id => deleteB s id
+  | .rcInc a b => rcOp s (fun r => r.inc s.aEx s.bEx a b)
+  | .rcDec a b => rcOp s (fun r => r.dec s.aEx s.bEx a b)
+  | .rcSet a b n => rcOp s (fun r => r.set s.aEx s.bEx a b n)
 
 def applyOps : State → List Op → Nat → Except (Nat × Err) State
   | s, [], _ => .ok s
@@ -329,15 +490,21 @@ def run (txs : List (List Op)) : State := txs.foldl (fun s ops => (txStep s ops)
 
 def bOwners : Bytes := [111, 119, 110, 101, 114, 115]
 def bOwner : Bytes := [111, 119, 110, 101, 114]
+def bDep : Bytes := [100, 101, 112]
 def bGroups : Bytes := [103, 114, 111, 117, 112, 115]
 def bExt1 : Bytes := [101, 120, 116, 49]
 def bCode : Bytes := [99, 111, 100, 101]
 def bLabel : Bytes := [108, 97, 98, 101, 108]
 def bMembers : Bytes := [109, 101, 109, 98, 101, 114, 115]
+def bPals : Bytes := [112, 97, 108, 115]
+def bPalsOf : Bytes := [112, 97, 108, 115, 79, 102]
+def bRcB : Bytes := [114, 99, 66]
+def bRcA : Bytes := [114, 99, 65]
 
 /-- every bucket / field name of the schema -/
 def reserved : List Bytes :=
-  [bU, bIndexes, bThings, bOwners, bName, bAlias, bRoles, bOwner, bGroups, bExt1, bCode, bLabel, bMembers]
+  [bU, bIndexes, bThings, bOwners, bName, bAlias, bRoles, bOwner, bDep, bGroups, bExt1, bCode, bLabel, bMembers,
+   bPals, bPalsOf, bRcB, bRcA]
 
 def idxPathA (field : Bytes) : List Bytes := [bU, bIndexes, bThings, field]
 def idxPathB (field : Bytes) : List Bytes := [bU, bIndexes, bOwners, field]
@@ -348,31 +515,42 @@ def optField : Option Bytes → Bytes
   | none => nilField
   | some v => typed v
 
+/-- `Int32ToBytes`: type byte 2 and four little-endian bytes -/
+def encCount (n : Nat) : Bytes :=
+  [2, UInt8.ofNat (n % 256), UInt8.ofNat (n / 256 % 256), UInt8.ofNat (n / 65536 % 256), UInt8.ofNat (n / 16777216 % 256)]
+
 /-- a bucket whose keys are typed ids / typed values with empty values -/
 def listBucket (path : List Bytes) (keys : List Bytes) : List Line :=
   .bucket path :: keys.map (fun k => .kv path (typed k) [])
 
-def renderA (grp : Map Id (List Id)) (p : Id × EntA) : List Line :=
+/-- a ref-count bucket: typed id → encoded count -/
+def countBucket (path : List Bytes) (c : Counts) : List Line :=
+  .bucket path :: c.entries.map (fun kv => .kv path (typed kv.1) (encCount kv.2))
+
+def optBucket {α : Type} (f : α → List Line) : Option α → List Line
+  | some x => f x
+  | none => []
+
+def renderA (s : State) (p : Id × EntA) : List Line :=
   [ .bucket (pathA p.1),
     .kv (pathA p.1) bName (typed p.2.name),
     .kv (pathA p.1) bAlias (optField p.2.alias),
-    .kv (pathA p.1) bOwner (optField p.2.owner) ] ++
+    .kv (pathA p.1) bOwner (optField p.2.owner),
+    .kv (pathA p.1) bDep (optField p.2.dep) ] ++
   listBucket (pathA p.1 ++ [bRoles]) p.2.roles ++
-  (match grp.lookup p.1 with
-   | some gs => listBucket (pathA p.1 ++ [bGroups]) gs
-   | none => []) ++
+  optBucket (listBucket (pathA p.1 ++ [bGroups])) (s.g.fwd.lookup p.1) ++
+  optBucket (countBucket (pathA p.1 ++ [bRcB])) (s.rc.fwd.lookup p.1) ++
   (match p.2.code with
-   | some c => [ .bucket (pathA p.1 ++ [bExt1]), .kv (pathA p.1 ++ [bExt1]) bCode (typed c) ]
+   | some c => [ .bucket (pathA p.1 ++ [bExt1]), .kv (pathA p.1 ++ [bExt1]) bCode (typed c) ] ++
+               optBucket (listBucket (pathA p.1 ++ [bExt1, bPals])) (s.p.fwd.lookup p.1)
    | none => [])
 
-def renderB (mem thg : Map Id (List Id)) (p : Id × EntB) : List Line :=
+def renderB (s : State) (p : Id × EntB) : List Line :=
   [ .bucket (pathB p.1), .kv (pathB p.1) bLabel (optField p.2.label) ] ++
-  (match mem.lookup p.1 with
-   | some ms => listBucket (pathB p.1 ++ [bMembers]) ms
-   | none => []) ++
-  (match thg.lookup p.1 with
-   | some ts => listBucket (pathB p.1 ++ [bThings]) ts
-   | none => [])
+  optBucket (listBucket (pathB p.1 ++ [bMembers])) (s.g.bwd.lookup p.1) ++
+  optBucket (listBucket (pathB p.1 ++ [bPalsOf])) (s.p.bwd.lookup p.1) ++
+  optBucket (countBucket (pathB p.1 ++ [bRcA])) (s.rc.bwd.lookup p.1) ++
+  optBucket (listBucket (pathB p.1 ++ [bThings])) (s.thg.lookup p.1)
 
 def renderUnique (path : List Bytes) (p : Bytes × Id) : List Line := [ .kv path p.1 p.2 ]
 
@@ -387,8 +565,8 @@ def Render (s : State) : List Line :=
   fixedLines ++
   (if s.hasA then [Line.bucket [bU, bThings]] else []) ++
   (if s.hasB then [Line.bucket [bU, bOwners]] else []) ++
-  s.a.entries.flatMap (renderA s.grp) ++
-  s.b.entries.flatMap (renderB s.mem s.thg) ++
+  s.a.entries.flatMap (renderA s) ++
+  s.b.entries.flatMap (renderB s) ++
   s.uName.entries.flatMap (renderUnique (idxPathA bName)) ++
   s.uAlias.entries.flatMap (renderUnique (idxPathA bAlias)) ++
   s.uCode.entries.flatMap (renderUnique (idxPathA bCode)) ++
